@@ -4,7 +4,7 @@
    pipeline: Quorum/Pipeline.v (leader_controller.go:write + wal sync goroutine, O-1 repaired);
    the code as it was: Quorum/Old.v, Pipeline.v (PAlloc/PAppend). *)
 From Coq Require Import List NArith ZArith.
-From Oxia.Quorum Require Import Model Spec Proofs Exact Old Pipeline PipelineProofs PipelineOld PipelineLive HeadWait.
+From Oxia.Quorum Require Import Model Spec Proofs Exact Old Pipeline PipelineProofs PipelineOld PipelineLive HeadWait Frame.
 Import ListNotations.
 Open Scope Z_scope.
 
@@ -21,6 +21,31 @@ Theorem c08_commit_le_head : forall rf0 h0 c0 ops, c0 <= h0 ->
   commit (run (new_tracker rf0 h0 c0) ops) <= head (run (new_tracker rf0 h0 c0) ops).
 Proof. exact commit_le_head. Qed.
 Print Assumptions c08_commit_le_head.
+
+(* ... from ANY state in which it does not (not only a fresh tracker), under any calls *)
+Theorem c08_commit_le_head_any_state : forall s ops,
+  commit s <= head s -> commit (run s ops) <= head (run s ops).
+Proof. exact commit_le_head_any. Qed.
+Print Assumptions c08_commit_le_head_any_state.
+
+(* what no call sequence can change (any state, any calls, also inadmissible or panicking ones): rf and the
+   required-ack count are fixed; the head offset, the offset allocator and the cursor generation only
+   move forward; a closed tracker stays closed *)
+Theorem c08_tracker_frame : forall s ops1 ops2,
+  rf (run s (ops1 ++ ops2)) = rf (run s ops1) /\
+  required (run s (ops1 ++ ops2)) = required (run s ops1) /\
+  next (run s ops1) <= next (run s (ops1 ++ ops2)) /\
+  head (run s ops1) <= head (run s (ops1 ++ ops2)) /\
+  (cursor_gen (run s ops1) <= cursor_gen (run s (ops1 ++ ops2)))%N /\
+  (closed (run s ops1) = true -> closed (run s (ops1 ++ ops2)) = true).
+Proof. exact run_frame. Qed.
+Print Assumptions c08_tracker_frame.
+
+(* at most one cursor index is handed out per call *)
+Theorem c08_cursor_gen_bound : forall s ops,
+  (cursor_gen (run s ops) <= cursor_gen s + N.of_nat (length ops))%N.
+Proof. exact run_cursor_gen_bound. Qed.
+Print Assumptions c08_cursor_gen_bound.
 
 (* safety, every admissible schedule (acks of a follower never skip an offset; duplicates,
    any cross-follower order, acks above the head, any number of cursors, close, any rf):
